@@ -122,6 +122,9 @@ TraceNext ==
          [] Ev.e = "X"  -> DoCleanup
          [] Ev.e = "CQ" -> DoConcurrent
 
+\* a trace is one path: the line number identifies the state
+TraceView == l
+
 (* printed once, when the whole trace has been consumed *)
 Report == l = Len(Trace) + 1 => PrintT(ToJson([n |-> Len(Trace), bad |-> bad]))
 =============================================================================
